@@ -525,11 +525,14 @@ fn arb_json_type(d: u32) -> BoxedStrategy<Type> {
     prop_oneof![
         4 => leaf,
         2 => proptest::collection::vec(sub.clone(), 0..4).prop_map(tuple_type),
-        2 => proptest::collection::vec(sub.clone(), 0..4).prop_map(|ts| {
-            let names = ["a", "b", "c", "d"];
-            named_tuple_type(ts.into_iter().enumerate().map(|(i, t)| (names[i].to_string(), t)).collect())
-        }),
-        2 => (0u64..5, sub).prop_map(|(n, t)| vector_type(n, t)),
+        // empty named tuples / empty vectors hit the known findings F-C13-1/2: kept at low weight so
+        // that the search continues behind them
+        2 => proptest::collection::vec(sub.clone(), prop_oneof![1 => Just(0usize), 30 => 1usize..4])
+            .prop_map(|ts| {
+                let names = ["a", "b", "c", "d"];
+                named_tuple_type(ts.into_iter().enumerate().map(|(i, t)| (names[i].to_string(), t)).collect())
+            }),
+        2 => (prop_oneof![1 => Just(0u64), 20 => 1u64..5], sub).prop_map(|(n, t)| vector_type(n, t)),
     ]
     .boxed()
 }
@@ -548,21 +551,21 @@ pub fn run(env: &Env) {
     env.campaign(
         "ints",
         "integers of every source integer type -> Value (from_scalar / from_flattened_array) -> every reader; bytes vs reference encoder",
-        env.n(60_000, 3_000_000),
+        env.n(400_000, 6_000_000),
         arb_int_case,
         oracle_ints,
     );
     env.campaign(
         "layout",
         "check_type(value,type) iff harness layout predicate, on matching layouts and 1-2 structural mutations (byte length +-1/+8, arity +-1, bytes<->vector)",
-        env.n(30_000, 1_000_000),
+        env.n(200_000, 3_000_000),
         arb_layout_case,
         oracle_layout,
     );
     env.campaign(
         "json",
         "serde_json::to_string(TypedValue) -> from_str: same type, is_equal, harness-decoded elements equal; compact and pretty text",
-        env.n(30_000, 1_500_000),
+        env.n(200_000, 3_000_000),
         arb_json_case,
         oracle_json,
     );
